@@ -20,7 +20,7 @@ ID_ATTRS = ['key', 'genbank_acc', 'refseq_acc', 'ncbi_id']
 
 @st.composite
 def world(draw, max_refs=8, max_queries=5, min_refs=1, min_queries=1, nasty_names=True, thr=None, ties=False):
-	k = draw(st.sampled_from([6, 5, 7, 8]))
+	k = draw(st.sampled_from([6, 5, 7, 8, 6, 5, 17, 12]))
 	prefix = draw(st.sampled_from(['AT', 'AC', 'TA', 'ATG', 'GA', 'CC']))
 	taxa = draw(taxgen.forest(max_taxa=10, max_depth=4, names=True, thr=thr if thr is not None else WORLD_THR))
 	if not nasty_names:
@@ -235,7 +235,7 @@ class World:
 				ids.append(self.sig_id(j))
 			else:
 				n = 4 ** self.k
-				arrays.append(np.array(sorted(rnd.sample(range(n), min(30, n))), dtype=self.dtype))
+				arrays.append(np.array(sorted({rnd.randrange(n) for _ in range(min(30, n))}), dtype=self.dtype))
 				ids.append(900000 + j if self.id_attr == 'ncbi_id' else f'extra/{j}')
 		if self.id_attr == 'ncbi_id':
 			ids = np.array(ids, dtype='i8')
